@@ -195,6 +195,7 @@ def conform_engine(chk, items, name="engine", prefix="engine", quiet=False):
                  "  MaxCancel = 99", "  TimeoutMs <- MC_TimeoutMs", "  WallEpoch = 0",
                  "  Dev_MatchDoneWaiters = " + B(dev["match_done_waiters"]), "  Dev_WaitIndexOneBased = " + B(dev["wait_index_one_based"]),
                  "  Dev_NoHandlersUnvalidated = " + B(dev["no_handlers_unvalidated"]), "  Dev_ClockMix = " + B(dev["clock_mix"]),
+                 "  Dev_RepingResolvedWaiters = " + B(dev.get("reping_resolved", False)),
                  "  MaxResume = 0", "  TrackLog = FALSE", "INIT TraceInit", "NEXT TraceNext"]
         (d / ("MC_te%d.cfg" % gi)).write_text("\n".join(lines) + "\n")
         f = d / "traces.json"
@@ -299,6 +300,7 @@ def mc_module(chk, name, prog, ext_menu=(), max_ext=1, max_cancel=0, dev=None, w
     cfg = cfg_for_tla(prog)
     P = {}
     for s, sc_ in prog["steps"].items():
+        assert not any(o.get("wid") == "per_input" for o in sc_["body"]), "per-input waiter ids / requirements are not modelled"
         ops = [_tla_op(o) for o in sc_["body"]]
         gi = next((i for i, o in enumerate(ops) if o["op"] == "gate"), len(ops))
         pre, body = ops[:gi], ops[gi:]
@@ -341,6 +343,7 @@ def mc_run(chk, name, prog, invariants, properties=(), ext_menu=(), max_ext=1, m
              "  Dev_MatchDoneWaiters = " + B(dev["match_done_waiters"]),
              "  Dev_WaitIndexOneBased = " + B(dev["wait_index_one_based"]),
              "  Dev_NoHandlersUnvalidated = " + B(dev["no_handlers_unvalidated"]),
+             "  Dev_RepingResolvedWaiters = " + B(dev.get("reping_resolved", False)),
              "  Dev_ClockMix = " + B(dev["clock_mix"]),
              "  MaxResume = %d" % max_resume,
              "  TrackLog = " + B(track_log),
@@ -378,7 +381,12 @@ def mc_plans(chk, pid):
                 ("pause_resume", sc.resumable(2, 2, 3, 1) if q else sc.resumable(2, 3, 3, 1), ["Inv_C12c", "Inv_C03a"],
                  ["Act_C12_WorkKept", "Act_C12_QueuedAttemptsKept"], {"max_resume": 1, "replay": True}),
                 ("pause_resume_waiter", sc.resumable_wait(), ["Inv_C12c", "Inv_C03a", "Inv_C10"],
-                 ["Act_C12_WorkKept"], {"ext_menu": [("Resp1", None), ("Resp", None)], "max_ext": 2, "max_resume": 1, "replay": True}),
+                 ["Act_C12_WorkKept", "Act_C12_NoDoubleStart"],
+                 {"ext_menu": [("Resp1", None), ("Resp", None)], "max_ext": 2, "max_resume": 1, "replay": True}),
+                # the code before the /repo fix (an answered waiter's step was pinged as well): TLC must refute it
+                ("pause_resume_waiter_reping", sc.resumable_wait(), [], ["Act_C12_NoDoubleStart"],
+                 {"ext_menu": [("Resp1", None), ("Resp", None)], "max_ext": 2, "max_resume": 1, "dev": {"reping_resolved": True},
+                  "expect_violation": "Act_C12_NoDoubleStart"}),
                 ("pause_resume_collect", sc.resumable(1, 3, 2, 0, 0, result="collected"), ["Inv_C12c", "Inv_C09"],
                  ["Act_C12_WorkKept"], {"max_resume": 2}),
                 # strict forms the code does not meet today (recorded findings of C12): TLC must refute them
@@ -581,6 +589,7 @@ def replay_model(chk, name, prog, ext_menu=(), max_ext=1, max_cancel=0, max_path
              "  MaxCancel = %d" % max_cancel, "  TimeoutMs <- MC_TimeoutMs", "  WallEpoch = 99000000",
              "  Dev_MatchDoneWaiters = " + B(dev["match_done_waiters"]), "  Dev_WaitIndexOneBased = " + B(dev["wait_index_one_based"]),
              "  Dev_NoHandlersUnvalidated = " + B(dev["no_handlers_unvalidated"]), "  Dev_ClockMix = " + B(dev["clock_mix"]),
+                 "  Dev_RepingResolvedWaiters = " + B(dev.get("reping_resolved", False)),
              "  MaxResume = %d" % max_resume, "  TrackLog = FALSE", "INIT Init", "NEXT Next"]
     (d / ("MC_%s.cfg" % name)).write_text("\n".join(lines) + "\n")
     dump = d / "graph"
